@@ -136,6 +136,9 @@ func runR02_1(c *Ctx, outer *R) {
 	if pre := e.inferPre(cone, module); len(pre) > 0 {
 		r.Note("inferred preconditions of private helpers (proved at every call site, assumed in the body): %s", strings.Join(pre, "; "))
 	}
+	if pre := e.inferPreGuarded(cone, module); len(pre) > 0 {
+		r.Note("inferred guarded preconditions of private helpers (proved at every call site under err == nil, assumed in the body where err == nil is established): %s", strings.Join(pre, "; "))
+	}
 	if post := e.inferPost(cone); len(post) > 0 {
 		r.Note("inferred size postconditions of private helpers (proved at every return, assumed at the calls): %s", strings.Join(post, "; "))
 	}
